@@ -18,7 +18,12 @@ R = Rules(
         "reports a timeout-class NetworkError for the message's remote, that the exchange key is "
         "(remote, mid) at all three sites, that ACK/RST cancel the stored timer and only RST fires the "
         "error monitor, that the message object is not modified between copies, and that the derived "
-        "TransportTuning spans equal the RFC 7252 section 4.8.2 formulas.  Paper step: with these "
+        "TransportTuning spans equal the RFC 7252 section 4.8.2 formulas, that a message derived by Message.copy() "
+        "(block-wise fragments and follow-ups) carries the caller's override or the original's own tuning object and "
+        "Message.__init__ stores the tuning it is given, and that the class of the error the give-up arm reports is "
+        "still an error.TimeoutError after the conversion TokenManager.dispatch_error applies (evaluated on a small "
+        "world with the class hierarchy, builtin bases included).  The order of transmitting and re-arming inside the "
+        "atomic (plain synchronous) retransmission step is not constrained.  Paper step: with these "
         "premises at most 1+MAX_RETRANSMIT transmissions occur with gaps t0*2^i and the give-up fires "
         "t0*(2^(N+1)-1) <= MAX_TRANSMIT_WAIT after the first copy.  Wall-clock behaviour is not decided."
     ),
@@ -219,20 +224,46 @@ def _need_interpretable(ctx, pf, path, counter):
                 ctx.need(c_ is not None and c_[0] in ("lt", "le", "eq", "ne"), "_retransmit: the condition `%s` on the retransmission counter is outside the rule's vocabulary" % stmt_text(nd.ast))
 
 
+def _transmissions(fi):
+    """The calls that put a message on the wire: self._send_via_transport(m), or what that function itself does,
+    self.message_interface.send(m) (receiver and bound-method aliases resolved)."""
+    return K.self_calls(fi, "_send_via_transport") + K.calls_on(fi, "self.message_interface", ("send",))
+
+
+def _sent_object(sv, call):
+    f = call.func
+    if isinstance(f, ast.Attribute) and f.attr == "_send_via_transport":
+        ba = K.method_args(sv, call)
+        return ba[params(sv)[0]] if ba else None
+    if len(call.args) == 1 and not call.keywords and not isinstance(call.args[0], ast.Starred):
+        return call.args[0]
+    if not call.args and len(call.keywords) == 1 and call.keywords[0].arg is not None:
+        return call.keywords[0].value
+    return None
+
+
 @R.clause("C03.b", "_retransmit: one guarded transmission of the unmodified message, re-arm with (message, 2*timeout, counter+1), nothing re-armed on give-up")
 def b(ctx):
     # Decided on the path model of _retransmit: a path is a *retransmission path* when the branch outcomes on it
     # establish counter - MAX_RETRANSMIT < 0 for the incoming counter (normal form; `not (a < b)`, `a >= b`,
     # mirrored operands, named conditions, early return vs. if/else all give the same fact).  Necessary
     # conditions: a transmission / re-arm lies only on retransmission paths, every retransmission path has
-    # exactly one of each (send before re-arm), and the re-arm passes (same message, 2*timeout, counter+1).
+    # exactly one of each (in either order: the function is one atomic step of the event loop, C03.b checks that
+    # it is a plain synchronous function), and the re-arm passes (same message, 2*timeout, counter+1).
     fi, p, pf, want, notwant = _retransmit_model(ctx)
     m, t, c = p
     cfg = pf.cfg
     paths = pf.paths()
     ctx.need(paths, "_retransmit has no normal path")
-    sends = K.self_calls(fi, "_send_via_transport")
-    ctx.floor("transmissions in _retransmit", len(sends), 1)
+    sends = _transmissions(fi)
+    if not sends:
+        # nothing is handed to the transport at all.  That is the finding "no copy is transmitted" -- unless the
+        # function calls something through a local callable (partial, lambda, nested def) that the rule does not
+        # look into: then the transmission may be in there, and the rule refuses instead
+        hidden = [c_ for c_ in ast.walk(fi.node) if isinstance(c_, ast.Call) and chain(resolve_local(fi.node, c_.func)) is None]
+        ctx.need(not hidden, "_retransmit: no transmission found, but `%s` calls something outside the rule's vocabulary" % (stmt_text(hidden[0], 70) if hidden else ""))
+    ctx.ob("_retransmit is a plain synchronous function: transmitting the copy and arming the next timer are one atomic step of the event loop (their order is immaterial)",
+           is_plain_sync(fi), fi, fi.node, construct="def _retransmit")
     send_nodes = set()
     for call in sends:
         send_nodes |= pf.nodes_of(call)
@@ -248,12 +279,14 @@ def b(ctx):
         _need_interpretable(ctx, pf, bad, c)
         ctx.ob("transmission is guarded by retransmission_counter < MAX_RETRANSMIT of the message's tuning", bool(through) and bad is None, fi, call,
                detail="on the path [%s] only %s is established" % (pf.describe(bad), _fmt_facts(pf.facts(bad))) if bad is not None else None)
-        ba = K.method_args(sv, call)
-        arg = ba[params(sv)[0]] if ba else None
+        arg = _sent_object(sv, call)
         ctx.ob("the retransmitted object is the message parameter itself (byte-identical copy)", arg is not None and _is_name(fi, arg, m), fi, call)
         ctx.ob("the transmission is not inside a loop", all(n not in cfg.reach({n}) for n in nodes), fi, call)
+        unarmed = next((q for q in through if sum(1 for n in q.nodes if n in rearm_nodes) != 1), None)
+        ctx.ob("every path that transmits the message arms exactly one next timer (in either order)", unarmed is None, fi, call,
+               detail="path [%s] transmits and arms %d timers" % (pf.describe(unarmed), sum(1 for n in unarmed.nodes if n in rearm_nodes)) if unarmed is not None else None)
     twice = next((q for q in paths if sum(1 for n in q.nodes if n in send_nodes) > 1), None)
-    ctx.ob("at most one transmission per expiry of the retransmission timer", twice is None, fi, sends[-1],
+    ctx.ob("at most one transmission per expiry of the retransmission timer", twice is None, fi, sends[-1] if sends else fi.node,
            detail="path [%s] transmits more than once" % pf.describe(twice) if twice is not None else None, construct="_retransmit: transmissions per path")
     retx = [q for q in paths if want in pf.facts(q)]
     ctx.need(retx, "_retransmit has no path on which counter < MAX_RETRANSMIT is established")
@@ -282,8 +315,12 @@ def b(ctx):
         cv = _arg_value(fi, ac, nid)
         ctx.ob("next timeout is exactly twice the previous one", tv == Poly.const(2) * Poly.atom(t), fi, call, detail="timeout passed = %r" % tv)
         ctx.ob("retransmission counter advances by exactly one", cv == Poly.atom(c) + Poly.const(1), fi, call, detail="counter passed = %r" % cv)
-        unsent = next((q for q in through if not any(n in send_nodes for n in q.nodes[: min(q.nodes.index(x) for x in nodes if x in q.nodes)])), None)
-        ctx.ob("every re-arm is preceded by a transmission", unsent is None, fi, call)
+        # order-free: arming and transmitting belong to one atomic step of the (plain, synchronous) function, so
+        # which comes first is immaterial -- but a path that arms a timer without transmitting a copy would double
+        # the interval without a retransmission in between
+        unsent = next((q for q in through if sum(1 for n in q.nodes if n in send_nodes) != 1), None)
+        ctx.ob("every path that arms the next timer transmits the message exactly once (in either order)", unsent is None, fi, call,
+               detail="path [%s] arms a timer and transmits %d times" % (pf.describe(unsent), sum(1 for n in unsent.nodes if n in send_nodes)) if unsent is not None else None)
         # the handle is stored back into the exchange table (same spelling-independent model as C03.d)
         stored = False
         for ins in inserts:
@@ -712,12 +749,27 @@ def tuning_chain_env(prog):
             if len(rets) == 1 and rets[0].value is not None:
                 env["self." + name] = K.closed(prog, fi, rets[0].value)
     for name, v in ci.attrs.items():
-        # NAME = property(lambda self: <expr>)
-        if "self." + name not in env and isinstance(v, ast.Call) and chain(v.func) in _PROPERTY_DECORATORS and len(v.args) == 1 and isinstance(v.args[0], ast.Lambda):
-            lam = v.args[0]
-            ps = [x.arg for x in lam.args.posonlyargs + lam.args.args]
-            if len(ps) == 1:
-                env["self." + name] = K.subst(lam.body, {ps[0]: ast.Name(id="self", ctx=ast.Load())}) if ps[0] != "self" else lam.body
+        # NAME = property(<getter>[, doc=...]) / property(fget=<getter>): the getter a lambda or a single-return
+        # function of the class; its body is closed like a decorated property's (helpers, locals)
+        if "self." + name in env or not (isinstance(v, ast.Call) and chain(v.func) in _PROPERTY_DECORATORS):
+            continue
+        getter = v.args[0] if v.args else next((k.value for k in v.keywords if k.arg in ("fget", "func")), None)
+        if isinstance(getter, ast.Name) and getter.id in ci.methods:
+            gfi = ci.methods[getter.id]
+            rets = [n for n in walk_no_nested(gfi.node) if isinstance(n, ast.Return)]
+            if len(rets) == 1 and rets[0].value is not None and len(params(gfi, skip_self=False)) == 1:
+                first = params(gfi, skip_self=False)[0]
+                body = K.closed(prog, gfi, rets[0].value)
+                env["self." + name] = K.subst(body, {first: ast.Name(id="self", ctx=ast.Load())}) if first != "self" else body
+            continue
+        if not isinstance(getter, ast.Lambda):
+            continue
+        lam = getter
+        ps = [x.arg for x in lam.args.posonlyargs + lam.args.args]
+        if len(ps) != 1 or lam.args.vararg or lam.args.kwarg or lam.args.kwonlyargs:
+            continue
+        body = K.subst(lam.body, {ps[0]: ast.Name(id="self", ctx=ast.Load())}) if ps[0] != "self" else lam.body
+        env["self." + name] = K.closed(prog, K.synthetic_method(ci, name, body), body)
     return ci, env
 
 
@@ -802,6 +854,408 @@ def h(ctx):
     ctx.ob("all %d tuning parameter reads go through <message>.transport_tuning" % reads, True, None, None, construct="messagemanager.py")
 
 
+ATTR = "transport_tuning"
+
+
+def _none_test(fi, test, name):
+    """True / False when the outcome True of `test` establishes that the local `name` is None (falsy) / is not
+    None (truthy); None when the test says nothing of that kind."""
+    pol = True
+    e = test
+    for _ in range(6):
+        if isinstance(e, ast.UnaryOp) and isinstance(e.op, ast.Not):
+            e, pol = e.operand, not pol
+        elif isinstance(e, ast.Name) and e.id != name:
+            v = resolve_local(fi.node, e)
+            if v is e:
+                break
+            e = v
+        else:
+            break
+    if isinstance(e, ast.Name) and e.id == name:
+        return not pol
+    if isinstance(e, ast.Compare) and len(e.ops) == 1 and isinstance(e.left, ast.Name) and e.left.id == name and isinstance(e.comparators[0], ast.Constant) and e.comparators[0].value is None:
+        if isinstance(e.ops[0], (ast.Is, ast.Eq)):
+            return pol
+        if isinstance(e.ops[0], (ast.IsNot, ast.NotEq)):
+            return not pol
+    return None
+
+
+def _known_none_at(fi, stmt, name):
+    """Is the statement dominated by a branch outcome establishing that `name` is None / falsy?"""
+    cfg = cfg_of(fi)
+    ids = cfg.locate(stmt)
+    return bool(ids) and all(any(_none_test(fi, g[0], name) == g[1] for g in cfg.guards(nid)) for nid in ids)
+
+
+def _plain_value(w):
+    if isinstance(w, ast.Assign) and len(w.targets) == 1 and isinstance(w.targets[0], ast.Name):
+        return w.value
+    if isinstance(w, ast.AnnAssign) and w.value is not None:
+        return w.value
+    if isinstance(w, ast.NamedExpr):
+        return w.value
+    return None
+
+
+def _local_defs(fi, name, at):
+    """[(write statement or None for the entry value, value expression or None, may_be_none_ok)] for the definitions
+    of `name` reaching statement `at`.  may_be_none_ok: a None left by this definition never arrives at `at`,
+    because another reaching definition re-binds the name exactly where it is known to be None / falsy."""
+    defs = K.reaching_defs(fi, name, at)
+    out = []
+    for w in defs:
+        v = None
+        if w is not None:
+            v = _plain_value(w)
+            if v is None:
+                raise AnalysisError("%s: `%s` is bound by `%s`, outside the rule's vocabulary" % (fi.short, name, stmt_text(w, 60)))
+        healed = any(w2 is not None and w2 is not w and _known_none_at(fi, w2, name) for w2 in defs)
+        out.append((w, v, healed))
+    return out
+
+
+def _not_carried(ctx, fi, e, me, kw, at, allow_none=False, depth=10):
+    """None when the value of expression e (evaluated at statement `at`) is -- whichever way it is computed -- the
+    caller's override for the tuning or the tuning object of the original message `me` (the very object, or a
+    copy.copy / copy.deepcopy of it, which keeps the instance's parameters); else (offending expression, reason).
+    allow_none: a None here is harmless because a fallback follows (`x or <fallback>`, a re-binding under
+    `if x is None`)."""
+    def rec(x, at_=at, none=allow_none):
+        return _not_carried(ctx, fi, x, me, kw, at_, none, depth - 1)
+
+    if depth == 0:
+        raise AnalysisError("%s: the tuning of the copy is computed through too many steps" % fi.short)
+    if isinstance(e, ast.Constant) and e.value is None:
+        return None if allow_none else (e, "None: the constructor then falls back to a default tuning")
+    if isinstance(e, ast.NamedExpr):
+        return rec(e.value)
+    if isinstance(e, ast.IfExp):
+        for arm, when in ((e.body, True), (e.orelse, False)):
+            none = allow_none
+            if isinstance(arm, ast.Name) and _none_test(fi, e.test, arm.id) == (not when):
+                none = True  # this arm is taken only when the name is not None
+            r = rec(arm, none=none)
+            if r is not None:
+                return r
+        return None
+    if isinstance(e, ast.BoolOp) and isinstance(e.op, ast.Or):
+        for x in e.values[:-1]:
+            r = rec(x, none=True)
+            if r is not None:
+                return r
+        return rec(e.values[-1])
+    if isinstance(e, ast.Name):
+        a = fi.node.args
+        pnames = {x.arg for x in a.posonlyargs + a.args + a.kwonlyargs} - {me}
+        for w, v, healed in _local_defs(fi, e.id, at):
+            if w is None:
+                if e.id in pnames:
+                    # an explicit override parameter of the copy function
+                    if not (allow_none or healed):
+                        return (e, "the parameter %s is used although it may be unset" % e.id)
+                    continue
+                return (e, "%s is not derived from the original's tuning" % e.id)
+            r = rec(v, at_=w, none=allow_none or healed)
+            if r is not None:
+                return r
+        return None
+    rd = K.mapping_read(fi, e, kw)
+    if rd is not None:
+        kv, dflt, has = rd
+        if kv != ATTR:
+            return (e, "reads the keyword argument %r" % (kv,))
+        return rec(dflt) if has else None
+    if K.canon_chain(fi, e) == "%s.%s" % (me, ATTR):
+        return None if _is_param_unmodified(fi, me) else (e, "%s is re-bound" % me)
+    if isinstance(e, ast.Call):
+        fn = K.resolved_func_name(ctx.prog, fi, e.func)
+        if fn == "getattr" and len(e.args) in (2, 3) and _is_name(fi, e.args[0], me):
+            try:
+                k = norm.consteval(e.args[1])
+            except norm.NormError:
+                k = None
+            if k == ATTR:
+                return rec(e.args[2]) if len(e.args) == 3 else None
+        if fn in ("copy.copy", "copy.deepcopy") and len(e.args) >= 1:
+            return rec(e.args[0], none=False)
+    return (e, "a value that is neither the caller's override nor the original's tuning object")
+
+
+def _stores_given(fi, e, P, at, depth=8):
+    """Does the expression e (at statement `at`) evaluate to the constructor argument P whenever P is given
+    (not None / truthy)?"""
+    if depth == 0:
+        return False
+    if isinstance(e, ast.NamedExpr):
+        return _stores_given(fi, e.value, P, at, depth - 1)
+    if isinstance(e, ast.BoolOp) and isinstance(e.op, ast.Or):
+        # `P or fallback`: the fallback is used only for a falsy P
+        return _stores_given(fi, e.values[0], P, at, depth - 1)
+    if isinstance(e, ast.IfExp):
+        t = _none_test(fi, e.test, P)
+        if t is True:  # body taken when P is None: only the other arm matters
+            return _stores_given(fi, e.orelse, P, at, depth - 1)
+        if t is False:
+            return _stores_given(fi, e.body, P, at, depth - 1)
+        return _stores_given(fi, e.body, P, at, depth - 1) and _stores_given(fi, e.orelse, P, at, depth - 1)
+    if isinstance(e, ast.Name):
+        defs = K.reaching_defs(fi, e.id, at)
+        for w in defs:
+            if w is None:
+                if e.id != P:
+                    return False
+                continue
+            if _known_none_at(fi, w, P):
+                continue  # re-bound only where P is not given
+            v = _plain_value(w)
+            if v is None or not _stores_given(fi, v, P, w, depth - 1):
+                return False
+        return bool(defs)
+    return False
+
+
+@R.clause("C03.i", "derived messages keep the tuning attached to the original: Message.copy() hands on the override or the original's own tuning object, Message.__init__ stores the tuning it is given, nothing else replaces a message's tuning")
+def i(ctx):
+    # The retransmission machinery reads every parameter from <message>.transport_tuning (C03.a/b/h).  The requests
+    # the block-wise layer sends (Block1 fragments, Block2 follow-ups, the re-addressed copy) are made by
+    # Message.copy(), so "follows the tuning attached to the message" needs: (1) the copy's tuning is the caller's
+    # explicit override or the very tuning object of the original -- a freshly constructed tuning (even of the same
+    # class) drops the parameters set on the instance; (2) the constructor stores the tuning it is given in the
+    # attribute the message manager reads; (3) no other code replaces a message's tuning by something that is not
+    # another message's tuning.
+    prog = ctx.prog
+    fi = K.view(prog.func("message.Message.copy"))
+    ps = params(fi, skip_self=False)
+    ctx.need(bool(ps), "Message.copy has no receiver parameter")
+    me = ps[0]
+    kw = K.kwargs_param(fi.node)
+    cfg = cfg_of(fi)
+    own = K.own_class(fi)
+    ctx.need(own is not None, "Message.copy is not a method")
+
+    def ctor_kind(call):
+        f = resolve_local(fi.node, call.func)
+        if isinstance(f, ast.Call) and chain(f.func) == "type" and len(f.args) == 1 and _is_name(fi, f.args[0], me):
+            return "new"
+        ch = chain(f)
+        if ch == me + ".__class__":
+            return "new"
+        if ch:
+            q = prog.resolve_in_module(fi.module, ch)
+            if q in prog.classes and (prog.is_subclass(own.qn, q) or prog.is_subclass(q, own.qn)):
+                return "new"
+            if q in ("copy.copy", "copy.deepcopy") and len(call.args) == 1 and _is_name(fi, call.args[0], me):
+                return "clone"  # keeps every attribute, the tuning included
+        return None
+
+    # the objects the function returns
+    made = []  # (constructor call, kind)
+
+    def objects(e, at, depth=8):
+        ctx.need(depth > 0, "Message.copy: the returned object is computed through too many steps")
+        if isinstance(e, ast.IfExp):
+            objects(e.body, at, depth - 1)
+            objects(e.orelse, at, depth - 1)
+        elif isinstance(e, ast.Name):
+            for w, v, _h in _local_defs(fi, e.id, at):
+                ctx.need(w is not None, "Message.copy returns %s, which it did not build" % e.id)
+                objects(v, w, depth - 1)
+        else:
+            kind = ctor_kind(e) if isinstance(e, ast.Call) else None
+            ctx.need(kind is not None, "Message.copy returns `%s`: how the copy is built is outside the rule's vocabulary" % stmt_text(e, 80))
+            if not any(c is e for c, _ in made):
+                made.append((e, kind))
+
+    rets = [n for n in walk_no_nested(fi.node) if isinstance(n, ast.Return) and n.value is not None]
+    ctx.floor("return statements of Message.copy", len(rets), 1)
+    for r_ in rets:
+        objects(r_.value, r_)
+    unknown = []
+    stores = K.attr_stores(fi.node, ATTR, unknown)
+    for call, kind in made:
+        holders = {w.targets[0].id for w in walk_no_nested(fi.node) if isinstance(w, ast.Assign) and w.value is call and len(w.targets) == 1 and isinstance(w.targets[0], ast.Name)}
+        def holds(rv):
+            # the receiver is a holder of the new object, directly or through aliases (`n2 = new`)
+            for _ in range(4):
+                if isinstance(rv, ast.Name) and rv.id in holders:
+                    return True
+                if not isinstance(rv, ast.Name):
+                    return rv is call
+                nxt = assigned_value(fi.node, rv.id)
+                if nxt is None or nxt is rv:
+                    return False
+                rv = nxt
+            return False
+        mine = [(rv, v, n) for rv, v, n in stores if holds(rv)]
+        for rv, n in unknown:
+            ctx.need(not holds(rv), "Message.copy: `%s` sets an attribute of the copy whose name the rule cannot determine" % stmt_text(n, 80))
+        sources = [(v, n) for _rv, v, n in mine]
+        snodes = set()
+        for _rv, _v, n in mine:
+            snodes |= set(cfg.locate(n))
+        overwritten = bool(snodes) and all(cfg.must_pass(c_, snodes) for c_ in cfg.locate(call))
+        if not overwritten:
+            if kind == "new":
+                kws = {k.arg: k.value for k in call.keywords}
+                if ATTR in kws:
+                    sources.append((kws[ATTR], call))
+                else:
+                    ctx.need(not call.args, "Message.copy builds the copy by `%s`: whether the tuning is passed is outside the rule's vocabulary" % stmt_text(call, 80))
+                    # `**mapping`: the entry of the mapping (display, dict(), comprehension over a literal table of names)
+                    found = None
+                    for k_ in call.keywords:
+                        if k_.arg is None:
+                            r_ = K.dict_entry(fi, k_.value, ATTR, call)
+                            found = r_ if r_ is not None else found
+                    sources.append((found, getattr(found, "_c03_at", call) if found is not None else call))
+        n_ok = 0
+        for v, n in sources:
+            bad = (call, "the copy is built without a tuning and none is assigned afterwards on every path") if v is None and n is call else \
+                  (n, "the tuning is written by `%s`" % stmt_text(n, 60)) if v is None else _not_carried(ctx, fi, v, me, kw, n)
+            ctx.ob("the tuning of a copy is the caller's override or the original's own tuning object (a derived request is retransmitted by the parameters attached to the original)",
+                   bad is None, fi, bad[0] if bad is not None else n, detail=bad[1] if bad is not None else None,
+                   construct="Message.copy tuning: %s" % stmt_text(bad[0] if bad is not None else (v if v is not None else n), 100))
+            n_ok += 1
+        if kind == "clone" and not sources:
+            ctx.ob("the tuning of a copy is the caller's override or the original's own tuning object (a derived request is retransmitted by the parameters attached to the original)", True, fi, call,
+                   construct="Message.copy tuning: %s" % stmt_text(call, 100))
+    ctx.floor("objects built by Message.copy", len(made), 1)
+
+    # (2) the constructor keeps what it is given
+    init = K.view(prog.func("message.Message.__init__"))
+    ips = params(init, skip_self=False)
+    a = init.node.args
+    ctx.need(ATTR in [x.arg for x in a.posonlyargs + a.args + a.kwonlyargs], "Message.__init__ has no parameter %s" % ATTR)
+    sme = ips[0]
+    ist = [(rv, v, n) for rv, v, n in K.attr_stores(init.node, ATTR) if _is_name(init, rv, sme)]
+    ctx.floor("writes of self.%s in Message.__init__" % ATTR, len(ist), 1)
+    for rv, v, n in ist:
+        ctx.ob("Message.__init__ stores the transport tuning it is given (a default only when none is given)", v is not None and (_known_none_at(init, n, ATTR) or _stores_given(init, v, ATTR, n)), init, n)
+    icfg = cfg_of(init)
+    inodes = set()
+    for _rv, _v, n in ist:
+        inodes |= set(icfg.locate(n))
+    ctx.ob("every message gets its tuning attribute on construction", icfg.must_pass(icfg.entry, inodes), init, init.node, construct="Message.__init__: %s assigned on every path" % ATTR)
+
+    # (3) the tuning of an EXISTING message (one the function received: a parameter, something reachable from a
+    # parameter) is never replaced by anything but the tuning of another message.  Giving a message the function has
+    # just built its tuning by attribute assignment is the same fact as a constructor keyword and is the builder's
+    # choice (decode tagging incoming messages, the OSCORE outer message): not a condition of this property.
+    others = 0
+    for g in prog.funcs.values():
+        if g.node.name == "__init__":
+            continue  # construction: `self` is the new object
+        if not any(isinstance(n, ast.Attribute) and n.attr == ATTR and isinstance(n.ctx, (ast.Store, ast.Del)) for n in ast.walk(g.node)) and \
+           not any(isinstance(n, ast.Constant) and n.value == ATTR for n in ast.walk(g.node)):
+            continue
+        if g.parent is not None and any(g.node is x for x in ast.walk(g.parent.node)):
+            continue  # nested function: seen with its parent
+        ga = g.node.args
+        gparams = {x.arg for x in ga.posonlyargs + ga.args + ga.kwonlyargs}
+        for rv, v, n in K.attr_stores(g.node, ATTR):
+            root = resolve_local(g.node, rv)
+            while isinstance(root, (ast.Attribute, ast.Subscript)):
+                root = resolve_local(g.node, root.value)
+            if not (isinstance(root, ast.Name) and root.id in gparams and not writes_to_name(g.node, root.id)):
+                continue  # an object the function made or obtained itself
+            others += 1
+            ok = False
+            if v is not None:
+                vals = K.possible_values(g, v) or []
+                ok = bool(vals) and all(isinstance(x, ast.Attribute) and x.attr == ATTR for x in (resolve_local(g.node, y) for y in vals))
+            ctx.ob("the tuning of a message a function received is only ever replaced by the tuning of another message", ok, g, n)
+    ctx.note("%d write(s) of .%s to received messages" % (others, ATTR))
+
+
+def _delivered_classes(ctx, kcls):
+    """What do the requests of the reported remote receive when TokenManager.dispatch_error is handed an error of
+    class kcls?  The function is run in the small-scope evaluator of C02 (rules/_kit_c02.py: the sources as written,
+    closures / partials / comprehensions / helpers with their Python meaning) on the world C02.e uses, with the
+    exception an individual of *known class*: every isinstance / except test on it is decided by the class
+    hierarchy (builtin bases under all their names).  -> [(class qn or None, object repr, call node, interp)]."""
+    from . import _kit_c02 as E
+    prog = E.raw_program(ctx.prog)
+    short = "tokenmanager.TokenManager.dispatch_error"
+    ctx.prog.touched.add("aiocoap." + short)
+    fi = prog.func(short)
+    ctx.need(len(params(fi)) == 2, "dispatch_error: (exception, remote) expected")
+    qn = prog.cls("tokenmanager.TokenManager").qn
+    Interp = K.class_aware_interp(E)
+
+    def run(script):
+        Rm, R2 = E.Obj("remote", True), E.Obj("other-remote", True)
+        t = [E.Obj("token-%d" % n, True) for n in range(4)]
+        mine = [E.Obj("request-1-of-the-remote", True), E.Obj("request-2-of-the-remote", True)]
+        out = [((t[0], Rm), mine[0]), ((t[1], R2), E.Obj("request-of-another-remote", True)), ((t[2], Rm), mine[1])]
+        stop = E.Obj("stopper-of-the-remote", True)
+        O = E.VDict(out, name="outgoing_requests")
+        I = E.VDict([((t[3], Rm), (E.Obj("pipe", True), stop))], name="incoming_requests")
+        me = E.Obj("self", True, cls=qn, attrs={"outgoing_requests": O, "incoming_requests": I})
+        exc = E.Obj("the reported error", True, cls=kcls)
+
+        def opaque(it, callee, args, kwargs, node):
+            if callee.attr == "add_exception" and callee.parent is not None:
+                O.pairs[:] = [p for p in O.pairs if p[1] != callee.parent]
+                return None
+            if callee.parent is None and callee == stop:
+                I.pairs[:] = []
+                return None
+            return NotImplemented
+        it = Interp(prog, script, opaque_call=opaque)
+        res = it.run_method(fi, me, [exc, Rm])
+        return it, (res, mine)
+
+    got = []
+    for it, (res, mine) in E.explore(run):
+        if res[0] != "return":
+            continue  # C02.e reports a dispatch_error that raises
+        for ev in it.events:
+            if ev.kind == "call" and ev.callee.attr == "add_exception" and ev.callee.parent in mine:
+                a0 = ev.args[0] if ev.args else None
+                got.append((a0.cls if isinstance(a0, E.Obj) else None, repr(a0), ev.node, it))
+    return fi, got
+
+
+@R.clause("C03.j", "the error class the give-up arm reports is still a timeout-class error when dispatch_error hands it to the requests")
+def j(ctx):
+    # Two sites jointly: (A) the class K of the object _retransmit reports, with its ancestry in error.py, and (B) the
+    # conversion TokenManager.dispatch_error applies before it fails the requests ("not a NetworkError -> wrap in a
+    # plain NetworkError", whatever test decides it).  Invariant: for every K that A can report, what B delivers is an
+    # instance of error.TimeoutError.  Either site may change (other bases, another test) as long as this holds.
+    fi, p, pf, want, notwant = _retransmit_model(ctx)
+    tm = ctx.prog.func("tokenmanager.TokenManager.dispatch_error")
+    tp = params(tm)
+    calls = K.calls_on(fi, "self.token_manager", ("dispatch_error",))
+    ctx.floor("dispatch_error calls in _retransmit", len(calls), 1)
+    classes = []
+    for call in calls:
+        ba = K.method_args(tm, call)
+        ctx.need(ba is not None, "dispatch_error call with a shape outside the rule's vocabulary")
+        for v in K.possible_values(fi, ba[tp[0]]) or []:
+            if isinstance(v, ast.Call) and chain(resolve_local(fi.node, v.func)):
+                cls = ctx.prog.resolve_in_module(fi.module, chain(resolve_local(fi.node, v.func)))
+                if cls in ctx.prog.classes and (call, cls) not in classes:
+                    classes.append((call, cls))
+    # an error that is not an instance of a package class is C03.f's finding, not this clause's
+    ctx.need(classes, "_retransmit: the class of the reported error is not a constructor call of a package class (see C03.f)")
+    want_cls = ctx.prog.cls("error.TimeoutError").qn
+    for call, cls in classes:
+        dfi, got = _delivered_classes(ctx, cls)
+        ctx.need(got, "dispatch_error: no request of the reported remote receives an exception in the evaluated world (see C02.e)")
+        bad = next((g for g in got if g[0] is None or not K.exc_is_subclass(ctx.prog, g[0], want_cls)), None)
+        if bad is not None:
+            it = bad[3]
+            if bad[0] is None or it.choices or it.blind:
+                raise AnalysisError("dispatch_error: the evaluated world does not determine what the requests receive for a %s (%s; depends on %s)" % (
+                    cls.rsplit(".", 1)[-1], bad[1], ", ".join(sorted(it.facts) + sorted(set(it.blind)))[:200]))
+        ctx.ob("a %s reported by the give-up arm reaches the requests as a timeout-class error (dispatch_error does not replace it by a plain NetworkError)" % cls.rsplit(".", 1)[-1],
+               bad is None, dfi, bad[2] if bad is not None else dfi.node,
+               construct="dispatch_error: delivery of %s" % cls.rsplit(".", 1)[-1],
+               detail=None if bad is None else "ancestry of %s: %s; the requests receive %s" % (cls.rsplit(".", 1)[-1], K.exc_mro(ctx.prog, cls), bad[1] if bad[0] is None else "an instance of %s" % bad[0]))
+
+
 # ---------------------------------------------------------------------------
 F_MM = "aiocoap/messagemanager.py"
 R.seed("C03.d", F_MM, "        messageerror_monitor, next_retransmission = self._active_exchanges.pop(key)\n        # this should be a no-op", "        messageerror_monitor, next_retransmission = self._active_exchanges[key]\n        # this should be a no-op", "timed-out exchange stays in the table: the remote looks busy forever")
@@ -840,3 +1294,25 @@ R.seed("C03.e", F_MM, "        if message.mtype in (ACK, RST):\n            self
 R.seed("C03.f", F_MM, "            self.token_manager.dispatch_error(\n                error.ConRetransmitsExceeded(\"Retransmissions exceeded\"), message.remote\n            )", "            pass", "give-up without telling anyone: the request hangs")
 R.seed("C03.f", F_MM, "error.ConRetransmitsExceeded(\"Retransmissions exceeded\"), message.remote", "error.ConRetransmitsExceeded(\"Retransmissions exceeded\"), None", "timeout reported for no remote")
 R.seed("C03.g", "aiocoap/numbers/constants.py", "        return 2 * self.MAX_LATENCY + self.PROCESSING_DELAY", "        return self.MAX_LATENCY + self.PROCESSING_DELAY")
+
+# fifth pass: order-free C03.b (seeds for both layouts of the retransmission branch: transmit first / transmit last;
+# the anchors of the layout that is not in the analysed tree are reported "skipped")
+R.seed("C03.b", F_MM, "            self._send_via_transport(message)\n            retransmission_counter += 1", "            retransmission_counter += 1", "the timer is re-armed with the doubled timeout but no copy is transmitted")
+R.seed("C03.b", F_MM, "            self._active_exchanges[key] = (messageerror_monitor, next_retransmission)\n            self._send_via_transport(message)\n", "            self._active_exchanges[key] = (messageerror_monitor, next_retransmission)\n", "the timer is re-armed with the doubled timeout but no copy is transmitted (transmit-last layout)")
+R.seed("C03.b", F_MM, "            self._active_exchanges[key] = (messageerror_monitor, next_retransmission)\n            self._send_via_transport(message)\n", "            self._active_exchanges[key] = (messageerror_monitor, next_retransmission)\n            self._send_via_transport(message)\n            self._send_via_transport(message)\n", "two copies per timer expiry (transmit-last layout)")
+R.seed("C03.b", F_MM, "            self._active_exchanges[key] = (messageerror_monitor, next_retransmission)\n            self._send_via_transport(message)\n", "            self._active_exchanges[key] = (messageerror_monitor, next_retransmission)\n            self._send_via_transport(message.copy())\n", "not the same object (transmit-last layout)")
+R.seed("C03.b", F_MM, "            self._active_exchanges[key] = (messageerror_monitor, next_retransmission)\n            self._send_via_transport(message)\n        else:", "            self._active_exchanges[key] = (messageerror_monitor, next_retransmission)\n        self._send_via_transport(message)\n        if False:\n            pass\n        else:", "a last copy is transmitted on give-up as well (transmit-last layout)")
+R.seed("C03.b", F_MM, "        next_retransmission.cancel()\n\n        if retransmission_counter < message.transport_tuning.MAX_RETRANSMIT:", "        next_retransmission.cancel()\n        self._send_via_transport(message)\n\n        if retransmission_counter < message.transport_tuning.MAX_RETRANSMIT:", "a copy is transmitted before the counter is looked at: one copy on give-up, two per retransmission")
+
+# fifth pass: C03.i / C03.j
+F_MSG = "aiocoap/message.py"
+R.seed("C03.i", F_MSG, "transport_tuning=kwargs.pop(\"transport_tuning\", self.transport_tuning),", "transport_tuning=kwargs.pop(\"transport_tuning\", None),", "derived (block-wise) requests fall back to the default tuning")
+R.seed("C03.i", F_MSG, "transport_tuning=kwargs.pop(\"transport_tuning\", self.transport_tuning),", "transport_tuning=kwargs.pop(\"transport_tuning\", self.transport_tuning.__class__()),", "a fresh tuning of the same class loses the parameters set on the instance")
+R.seed("C03.i", F_MSG, "            transport_tuning=kwargs.pop(\"transport_tuning\", self.transport_tuning),\n", "", "the copy is built without the tuning")
+R.seed("C03.i", F_MSG, "transport_tuning=kwargs.pop(\"transport_tuning\", self.transport_tuning),", "transport_tuning=kwargs.pop(\"transport_tuning\", None) and self.transport_tuning,", "an explicit override is replaced by the original's tuning, no override yields None")
+R.seed("C03.i", F_MSG, "        self.transport_tuning = transport_tuning or TransportTuning()", "        self.transport_tuning = TransportTuning()", "the constructor ignores the tuning it is given")
+R.seed("C03.i", F_MSG, "        self.transport_tuning = transport_tuning or TransportTuning()", "        self.transport_tuning = TransportTuning() if transport_tuning is not None else transport_tuning", "inverted test in the constructor")
+R.seed("C03.i", F_MM, "        key = (message.remote, message.mid)\n\n        if message.remote not in self._backlogs:", "        key = (message.remote, message.mid)\n        message.transport_tuning = type(message.transport_tuning)()\n\n        if message.remote not in self._backlogs:", "the message manager replaces the tuning attached to the message it is asked to send")
+R.seed("C03.j", "aiocoap/tokenmanager.py", "        if not isinstance(exception, error.NetworkError):\n            cause = exception", "        if not isinstance(exception, error.NetworkError) or isinstance(\n            exception, error.TimeoutError\n        ):\n            cause = exception", "timeouts are flattened into a plain NetworkError")
+R.seed("C03.j", "aiocoap/tokenmanager.py", "        if not isinstance(exception, error.NetworkError):\n            cause = exception", "        if isinstance(exception, Exception):\n            cause = exception", "everything is wrapped: the request fails with a plain NetworkError, not a timeout")
+R.seed("C03.j", "aiocoap/tokenmanager.py", "        if not isinstance(exception, error.NetworkError):\n            cause = exception", "        if not isinstance(exception, error.RemoteServerShutdown):\n            cause = exception", "only one sibling class is let through")
